@@ -5,7 +5,9 @@ from .common import *          # noqa
 from .funnel import optimizer_classes, config_class, test_config
 
 META = {
-    "explanation": "(a) Base-class bookkeeping: the real optimize() is called on one Scripted instance 1-3 times; each "
+    "explanation": "(a) Base-class bookkeeping: the real optimize() is called on one Scripted instance 1-3 times (also on a task "
+                   "of another dimension / direction / objective count with agents built by the real _init_agent, and "
+                   "the first run's result object must not be altered by the second run); each "
                    "call has its own symbolic mean-fitness history, symbolic fitness_error and enumerated max_cycles / "
                    "early stopping; the last call must execute the same number of cycles and return the same rates / "
                    "generations / best as the same call on a fresh instance. (b) Per class (all 84), arbitrary-pre-state "
@@ -64,6 +66,58 @@ def ob_history(shapes):
     return f
 
 
+def inbounds_candidate(decls, prefix):
+    out = []
+    for i, d in enumerate(decls):
+        if d[0] == "cont":
+            out.append(sym.real(f"{prefix}{i}", lo=d[1], hi=d[2]))
+        elif d[0] == "disc":
+            out.append(sym.integer(f"{prefix}{i}", 0, d[1] - 1))
+        else:
+            raise AssertionError(d)
+    return out
+
+
+def ob_other_task(first, second):
+    """run 1 on task A, run 2 on a *different* task B (other dimension / direction / objective count) on the same
+    instance: run 2 equals the run on a fresh instance, and the result object of run 1 is not altered by run 2.
+    first/second = (variant names, direction, n_objectives); candidates are members (clipping is not the subject)"""
+    def f():
+        with env(allow_seed=True):
+            def run(opt, tag, spec):
+                names, dname, k = spec
+                vs = build_vars(names)
+                decls = leaf_decls(vs)
+                F = sym.shared(f"{tag}.F", lambda: {})
+
+                def obj(x, i):
+                    if i not in F:
+                        F[i] = [sym.real(f"{tag}.F{i}.{j}") for j in range(k)]
+                    return list(F[i]) if k > 1 else F[i][0]
+                w = sym.shared(f"{tag}.w", lambda: [sym.real(f"{tag}.w{j}", lo=0.0) for j in range(k)]) if k > 1 else None
+                t = make_task(vs, obj, minmax=DIRS[dname], weights=w)
+                cands = sym.shared(f"{tag}.x", lambda: [inbounds_candidate(decls, f"{tag}.x{g}.") for g in range(2)])
+                opt._config = M.BaseOptimizationConfig(population_size=1, fitness_error=None, max_cycles=1)
+                opt.init_fn = lambda o: [o._init_agent(list(cands[0]))]
+                opt.step_fn = lambda o, n: setattr(o, "_population", [o._init_agent(list(cands[1]))])
+                return opt.optimize(t)
+
+            def sig(res):
+                return ([[(a.position, a.cost, a.fitness) for a in g.agents] for g in res.evolution], list(res.rates),
+                        (res.best_solution.position, res.best_solution.cost))
+            used = Scripted(None)
+            r1 = run(used, "a", first)
+            s1 = sig(r1)
+            r2 = run(used, "b", second)
+            fresh = run(Scripted(None), "b", second)
+            if sig(r2) != sig(fresh):
+                return Failure("run-on-another-task-differs-from-a-fresh-instance", used=sig(r2), fresh=sig(fresh))
+            if sig(r1) != s1:
+                return Failure("an-earlier-result-is-altered-by-a-later-run", before=s1, after=sig(r1))
+            return OK
+    return f
+
+
 # ----------------------------------------------------------------------------------------------- (b) per class
 class _T(M.Task):
     def objective_function(self, x):
@@ -73,6 +127,10 @@ class _T(M.Task):
 def _task():
     return _T(variables=[M.ContinuousMultiVariable(name="x", lower_bounds=[-1.0, 0.5, -3.0],
                                                    upper_bounds=[2.0, 5.0, 3.0])], seed=7)
+
+
+def _task2():
+    return _T(variables=[M.ContinuousMultiVariable(name="y", lower_bounds=[-5.12] * 4, upper_bounds=[5.12] * 4)], seed=3)
 
 
 def _base_fields():
@@ -99,21 +157,39 @@ def _result_sig(res):
 
 
 def api_replay(cls):
-    """optimize() twice on one instance vs once on a fresh instance (real code, identical seeds)"""
+    """optimize() twice on one instance vs once on a fresh instance (real code, identical seeds); tried on the
+    test-suite configuration and on variants with a longer cycle budget, on two tasks (adaptive state often only matters
+    late in a run). Returns the first (second-run signature, fresh signature) pair that differs, else equal ones."""
     import random
     kw = test_config(cls)
     C = config_class(cls)
-
-    def run(o):
-        random.seed(11)
-        return _result_sig(o.optimize(_task()))
-    fresh = run(cls(C(**kw)))
-    if run(cls(C(**kw))) != fresh:
-        return None, None          # the class is not deterministic under identical seeds: the comparison says nothing
-    used = cls(C(**kw))
-    run(used)
-    second = run(used)
-    return second, fresh
+    variants = [dict(kw)]
+    for mc in (25, 40):
+        v = dict(kw, max_cycles=mc, fitness_error=None)
+        try:
+            C(**v)
+            variants.append(v)
+        except Exception:
+            pass
+    last = (None, None)
+    for v in variants:
+        for mk_task in (_task, _task2):
+            def run(o, first=False):
+                random.seed(11)
+                return _result_sig(o.optimize(mk_task() if not first else _task()))
+            try:
+                fresh = run(cls(C(**v)))
+                if run(cls(C(**v))) != fresh:
+                    continue          # not deterministic under identical seeds: the comparison says nothing
+                used = cls(C(**v))
+                run(used, first=True)
+                second = run(used)
+            except Exception:
+                continue
+            last = (second, fresh)
+            if second != fresh:
+                return second, fresh
+    return last
 
 
 def ob_class(cname):
@@ -122,7 +198,7 @@ def ob_class(cname):
     def f():
         if sym.MODE == "replay":
             second, fresh = api_replay(cls)
-            if second != fresh:
+            if second is not None and second != fresh:
                 return Failure("second-run-on-a-used-instance-differs-from-a-fresh-instance", cls=cname,
                                cycles=(len(second[1]), len(fresh[1])), rates_second=second[1][:4], rates_fresh=fresh[1][:4])
             return OK
@@ -135,6 +211,10 @@ def ob_class(cname):
             marks = {}
             for k in priv:
                 v = getattr(dirty, k)
+                if v is None:          # "not computed yet": an earlier run may have left a number behind
+                    marks[k] = sym.real(k)
+                    setattr(dirty, k, marks[k])
+                    continue
                 if isinstance(v, bool) or not isinstance(v, (int, float)):
                     continue
                 marks[k] = sym.integer(k, -5, 5) if isinstance(v, int) else sym.real(k)
@@ -174,6 +254,12 @@ def obligations(tier):
             obs.append(Ob(f"history[{first}->{last}]".replace(" ", ""), ob_history([first, last]), 600))
     for a, b, c in (((2, True, None), (1, False, None), (2, True, None)), ((1, True, 1), (2, True, None), (2, False, 1))):
         obs.append(Ob(f"history[{a}->{b}->{c}]".replace(" ", ""), ob_history([a, b, c]), 900))
+    specs = [(("C",), "max", 2), (("C",), "min", 1), (("D3",), "min", 1), (("CM2",), "max", 1), (("C", "D3"), "min", 2)]
+    for a in specs:
+        for b in specs:
+            if a is not b and (th or (specs.index(a) < 3 and specs.index(b) < 4)):
+                obs.append(Ob(f"other_task[{'+'.join(a[0])}/{a[1]}/{a[2]}->{'+'.join(b[0])}/{b[1]}/{b[2]}]",
+                              ob_other_task(a, b), 600))
     for cname in optimizer_classes():
         obs.append(Ob(f"class[{cname}]", ob_class(cname), 120, refutation_only=True, api_replay_decides=True))
     obs.append(Ob("twin_vacuity", twin(), 30, expect_refuted=True))
